@@ -7,8 +7,10 @@ pub async fn on_did_change_watched_files(
     context: ServerContextSnapshot,
     params: DidChangeWatchedFilesParams,
 ) -> Option<()> {
-    let workspace = context.workspace_manager().read().await;
+    // every other task that needs both takes `analysis` before `workspace_manager`;
+    // taking them the other way round here closes a lock-order cycle
     let mut analysis = context.analysis().write().await;
+    let workspace = context.workspace_manager().read().await;
     let emmyrc = analysis.get_emmyrc();
     let encoding = &emmyrc.workspace.encoding;
     let interval = emmyrc.diagnostics.diagnostic_interval.unwrap_or(500);
@@ -47,11 +49,8 @@ pub async fn on_did_change_watched_files(
                     continue;
                 }
                 let config_path = uri_to_file_path(&file_event.uri).unwrap();
-                context
-                    .workspace_manager()
-                    .read()
-                    .await
-                    .add_update_emmyrc_task(context.clone(), config_path);
+                // reuse the guard held above instead of acquiring the read lock a second time
+                workspace.add_update_emmyrc_task(context.clone(), config_path);
             }
             None => {}
         }
